@@ -32,6 +32,9 @@ struct PipeState {
     q: VecDeque<u8>,
     cap: usize,
     closed: bool,
+    /// the reading end stopped reading (it met an error): like a closed reading end of a
+    /// socket pair whose peer keeps draining, writes succeed and the bytes go nowhere
+    reader_gone: bool,
     rwaker: Option<Waker>,
     wwaker: Option<Waker>,
     /// every byte that ever crossed the pipe
@@ -98,6 +101,12 @@ impl AsyncWrite for PipeWriter {
                 return Poll::Ready(Err(io::Error::new(io::ErrorKind::BrokenPipe, "qxsim-werr")));
             }
             accept = accept.min(left);
+        }
+        if st.reader_gone {
+            st.crossed.extend_from_slice(&data[..accept]);
+            st.wcalls += 1;
+            this.pend_left = None;
+            return Poll::Ready(Ok(accept));
         }
         let free = st.cap.saturating_sub(st.q.len());
         if free == 0 {
@@ -638,6 +647,8 @@ const P_STRS: &[&str] = &[
     "", "x", "a b", "<", ">", "&", "\"", "'", "]]>", "--", "?>", "a]]>b", "]]", "\u{e9}", "&amp;", " lead", "trail ", "\n",
     "<a>", "</a>", "-", "?", "=", "\u{fc}]]>]]>", "\u{65e5}\u{672c}", "]]>]]>", "]", "]>", "a\"b'c", "&#x41;", "<!--", "-->",
     "<![CDATA[", "\t", "  ", "1 < 2 && 3 > 2", "]]]>", "]]>x", "x]]>",
+    // "arbitrary values": control characters, line ends of every kind, non-characters
+    "\u{0}", "a\u{0}b", "\u{1}", "\u{8}", "\u{b}", "\u{c}", "\u{1f}", "\u{7f}", "\u{85}", "\u{a0}", "\u{2028}", "\u{fffd}", "\u{ffff}", "\u{10ffff}", "\r", "\r\n", "x\ry",
 ];
 
 fn pstr(rng: &mut Rng) -> String {
@@ -935,6 +946,7 @@ impl Scenario for Pipe {
             let pr = PipeReader { st: state.clone(), plan: plan.pipe.clone(), chunk: vec![], off: 0, pend_left: None, bom_first: matches!(builds.first(), Some(Build::Bom)) };
             let wres = &write_result;
             let revs = &read_events;
+            let rstate = state.clone();
             let writer_task = async move {
                 use tokio::io::AsyncWriteExt;
                 let mut w = make_writer(pw, plan.pipe.indent);
@@ -963,6 +975,12 @@ impl Scenario for Pipe {
                         break;
                     }
                 }
+                // a reader that gave up must not leave the writer blocked on a full pipe
+                let mut st = rstate.borrow_mut();
+                st.reader_gone = true;
+                if let Some(w) = st.wwaker.take() {
+                    w.wake();
+                }
             };
             let mut tasks = [Task::new(writer_task), Task::new(reader_task)];
             let max_ticks = (ref_bytes.len() as u64 + 64) * 64 + 10_000;
@@ -971,11 +989,13 @@ impl Scenario for Pipe {
         st.executions += 1;
         let es = match run {
             Ok(Ok(es)) => es,
-            Ok(Err(ExecError::Deadlock)) => crate::core::harness_fail(
-                "pipe executor",
-                &crate::core::PanicInfo { kind: PanicKind::Exec, msg: "deadlock".into(), loc: String::new() },
-                plan,
-            ),
+            Ok(Err(ExecError::Deadlock)) => {
+                // the stubs wake their peer on every transfer and the reader releases the writer
+                // when it gives up, so writer and reader can only both be parked if the library
+                // dropped a wake-up or stopped driving its sink / source
+                out.push(Violation::new("C09", "pipeline-stalled", "writer task and reader task are both parked with nothing scheduled to wake them".into()));
+                return out;
+            }
             Ok(Err(ExecError::Budget)) => {
                 out.push(Violation::new("C09", "non-termination", "writer/reader pipeline exceeded its tick budget".into()));
                 return out;
